@@ -100,6 +100,10 @@ func getArrayPrototype() *Value {
 					}
 
 					for _, item := range *this.Array {
+						if v[0].Tag == ValueUnknown || item.Value.Tag == ValueUnknown {
+							// as with ==, an unknown value equals nothing
+							continue
+						}
 						comp, err := v[0].Compare(&item.Value)
 						if err != nil {
 							return nil, err
